@@ -1,7 +1,9 @@
 package rules
 
 import (
+	"go/token"
 	"go/types"
+	"strings"
 
 	"dirkcheck/internal/an"
 	"dirkcheck/internal/prog"
@@ -158,6 +160,112 @@ func (c *Ctx) RulerPositions(prop string) {
 			}
 		}
 		listWritten(F, dataP, 0)
+		// nor does the ruler edit what the entries point to: the request data objects (and the slices inside them) belong to the
+		// caller, who may be iterating over them or may hand them to the rules again. A value is "of the request" when it is
+		// reached from the list by element loads, field accesses, type assertions and slicing.
+		seenD := map[*ssa.Function]bool{}
+		var dataWritten func(G *ssa.Function, roots map[ssa.Value]bool, depth int)
+		dataWritten = func(G *ssa.Function, roots map[ssa.Value]bool, depth int) {
+			if depth > 3 || G.Blocks == nil {
+				return
+			}
+			var ofRequest func(v ssa.Value, d int) bool
+			ofRequest = func(v ssa.Value, d int) bool {
+				if v == nil || d > 10 {
+					return false
+				}
+				if roots[v] {
+					return true
+				}
+				switch x := v.(type) {
+				case *ssa.UnOp:
+					if x.Op == token.MUL {
+						if inner, ok := an.ResolveCell(x.X); ok {
+							return ofRequest(inner, d+1)
+						}
+					}
+					return ofRequest(x.X, d+1)
+				case *ssa.FieldAddr:
+					return ofRequest(x.X, d+1)
+				case *ssa.Field:
+					return ofRequest(x.X, d+1)
+				case *ssa.IndexAddr:
+					return ofRequest(x.X, d+1)
+				case *ssa.Slice:
+					return ofRequest(x.X, d+1)
+				case *ssa.TypeAssert:
+					return ofRequest(x.X, d+1)
+				case *ssa.Extract:
+					return ofRequest(x.Tuple, d+1)
+				case *ssa.ChangeType:
+					return ofRequest(x.X, d+1)
+				case *ssa.MakeInterface:
+					return ofRequest(x.X, d+1)
+				case *ssa.FreeVar:
+					if b := an.FreeVarBinding(x); b != nil {
+						return ofRequest(b, d+1)
+					}
+				}
+				return false
+			}
+			for _, f := range WithClosures(G) {
+				for _, b := range f.Blocks {
+					for _, ins := range b.Instrs {
+						switch x := ins.(type) {
+						case *ssa.Store:
+							// a store into the request: a field of a data object, an element of one of its slices
+							switch a := x.Addr.(type) {
+							case *ssa.FieldAddr:
+								if ofRequest(a.X, 0) {
+									good = false
+									c.R.Fail(rule, Fn(f)+":request-data", c.Pos(x), "the ruler assigns field "+fieldNameOf(a)+" of a request data object it was handed: the caller (who may be iterating over that very value) sees its request rewritten", "request data is read-only for the ruler", nil)
+								}
+							case *ssa.IndexAddr:
+								if ofRequest(a.X, 0) && sliceRoot(a.X) != dataP {
+									good = false
+									c.R.Fail(rule, Fn(f)+":request-data", c.Pos(x), "the ruler writes into a list inside the request data it was handed", "request data is read-only for the ruler", nil)
+								}
+							}
+						case ssa.CallInstruction:
+							cc := x.Common()
+							if _, isB := cc.Value.(*ssa.Builtin); isB {
+								continue
+							}
+							callee := cc.StaticCallee()
+							for k, a := range cc.Args {
+								v := a
+								if mi, ok := v.(*ssa.MakeInterface); ok {
+									v = mi.X
+								}
+								if _, isSlice := v.Type().Underlying().(*types.Slice); !isSlice || !ofRequest(v, 0) || sliceRoot(v) == dataP {
+									continue
+								}
+								if callee != nil && prog.InModule(callee) && !cc.IsInvoke() {
+									if k < len(callee.Params) && !seenD[callee] {
+										seenD[callee] = true
+										dataWritten(callee, map[ssa.Value]bool{callee.Params[k]: true}, depth+1)
+									}
+									continue
+								}
+								if cc.IsInvoke() && namedIs(cc.Value.Type(), pkgRules, "Service") {
+									continue
+								}
+								if callee != nil && strings.HasPrefix(callee.String(), "(*github.com/rs/zerolog.") {
+									continue // logging reads
+								}
+								name := "a dynamic call"
+								if callee != nil {
+									name = callee.String()
+								}
+								good = false
+								c.R.Fail(rule, Fn(f)+":request-data", c.Pos(ins), "a list inside the request data is handed to "+name+", which may reorder or edit it in place: the caller sees its request rewritten", "request data is read-only for the ruler", nil)
+							}
+						}
+					}
+				}
+			}
+		}
+		dataWritten(F, map[ssa.Value]bool{dataP: true}, 0)
 		var valid func(root ssa.Value, at ssa.Instruction) bool
 		checked := map[ssa.Value]bool{}
 		valid = func(root ssa.Value, at ssa.Instruction) bool {
